@@ -13,9 +13,9 @@ KQ = 61445
 def jobs_for(tier):
     jobs = []
     if tier == 'quick':
-        cfg = [(0, 1, 0), (1, 3, 0), (2, 3, 0), (3, 3, 0), (4, 2, 0), (5, 2, 0), (6, 2, 1), (8, 1, 0), (8, 2, 2)]
+        cfg = [(0, 1, 0), (1, 6, 0), (2, 5, 0), (3, 3, 0), (4, 2, 0), (5, 2, 0), (6, 2, 1), (8, 1, 0), (8, 2, 2)]      # long rejection runs at n = 1, 2: a bounded retry count per coefficient shows there
     else:
-        cfg = [(0, 1, 0), (1, 4, 0), (2, 4, 0), (3, 4, 0), (4, 4, 1), (5, 3, 1), (6, 3, 2), (8, 3, 3), (10, 2, 3), (12, 2, 3), (16, 2, 4), (16, 1, 0)]
+        cfg = [(0, 1, 0), (1, 8, 0), (2, 6, 0), (3, 4, 0), (4, 4, 1), (5, 3, 1), (6, 3, 2), (8, 3, 3), (10, 2, 3), (12, 2, 3), (16, 2, 4), (16, 1, 0)]
     for n, r, split in cfg:
         if split == 0:
             jobs.append((MOD, 'h2p_scen', dict(n=n, max_rej=r, deadline_s=3000)))
@@ -128,7 +128,7 @@ def confirm(rep, b):
 def check(tier):
     rep = Report('C14', tier)
     rep.functions = ['polynomial::hash_to_point', 'Felt::new']
-    rep.bounds = ['quick: n <= 8 with <= 1..3 rejections; thorough: n <= 16, <= 2..4 rejections (every accept/reject interleaving inside the bound)',
+    rep.bounds = ['quick: n <= 8 with <= 1..6 rejections (6 at n = 1, 5 at n = 2, 3 at n = 3, 1..2 beyond); thorough: n <= 16, <= 2..8 rejections (every accept/reject interleaving inside the bound)',
                   'the XOF output is a fully symbolic byte stream (all 2^(16(n+r)) streams per configuration)']
     rep.outside = ['n = 512 / 1024 as loop trip counts (the function does not depend on n other than through the loop exit); more rejections than the bound',
                    'SHAKE-256 itself (sha3 crate) is trusted: the stub returns arbitrary bytes']
